@@ -4,7 +4,11 @@
 
      1. lit_class is characterised by exact rational arithmetic on the decimal
         data of the literal (lit_class_int / lit_class_overflow /
-        lit_class_oracle): value = (-1)^neg * lit_num / lit_den.
+        lit_class_oracle): value = (-1)^neg * lit_num / lit_den - for literals
+        within the digit budget int_digits_ok (integer part of at most 800
+        digits) and exp_digits_ok (zero mantissa, or exponent magnitude below
+        10000); outside it the class is NCOracle (strconv.ParseFloat does not
+        read the literal's true value there).
      2. lit_plain (the old exact path) is a special case; num_value (num_x num)
         = num_x num.
      3. text_lits s = the number literals the tokenizer meets in s; the parse
@@ -152,7 +156,12 @@ Section Core.
 End Core.
 
 (* ================= lit_class, exactly ================= *)
+(* the digit budget within which strconv.ParseFloat reads the literal's true
+   value: at most 800 integer digits; the exponent below 10000 in magnitude
+   unless the mantissa is zero (a zero mantissa is read as 0 whatever follows) *)
 Definition int_digits_ok (l : numlit) : Prop := (length (nl_int l) <= max_int_digits)%nat.
+Definition exp_digits_ok (l : numlit) : Prop :=
+  lit_mant l = 0 \/ (Z.abs (exp_val (nl_exp l)) < max_exp10)%Z.
 
 Lemma lit_class_long l : ~ int_digits_ok l -> lit_class l = NCOracle.
 Proof.
@@ -161,16 +170,27 @@ Proof.
 Qed.
 
 (* what lit_class computes once the length test is passed *)
-Lemma lit_class_unfold l : int_digits_ok l ->
+(* a non-zero mantissa with an exponent of magnitude >= 10000 *)
+Lemma lit_class_long_exp l : ~ exp_digits_ok l -> lit_class l = NCOracle.
+Proof.
+  unfold exp_digits_ok, lit_class. intros H.
+  destruct (max_int_digits <? length (nl_int l))%nat; [reflexivity|]. cbv zeta.
+  destruct (lit_mant l =? 0) eqn:M; [exfalso; apply H; left; apply N.eqb_eq; exact M|].
+  replace (max_exp10 <=? Z.abs (exp_val (nl_exp l)))%Z with true by lia. reflexivity.
+Qed.
+
+Lemma lit_class_unfold l : int_digits_ok l -> exp_digits_ok l ->
   lit_class l =
     if lit_mant l =? 0 then NCInt 0
     else if (400 <? lit_exp10 l)%Z then NCOverflow
     else if (lit_exp10 l <? - (Z.of_nat (length (lit_digits l)) + 400))%Z then NCInt 0
     else core two53 (2 ^ 1075) f64_over (lit_sign l) (lit_num l) (lit_den l).
 Proof.
-  unfold int_digits_ok, lit_class. intros H.
+  unfold int_digits_ok, exp_digits_ok, lit_class. intros H X.
   replace (max_int_digits <? length (nl_int l))%nat with false by (symmetry; apply Nat.ltb_ge; lia).
-  cbv zeta. unfold core, lit_num, lit_den. rewrite N.shiftl_mul_pow2. reflexivity.
+  cbv zeta. destruct (lit_mant l =? 0) eqn:M; [reflexivity|].
+  replace (max_exp10 <=? Z.abs (exp_val (nl_exp l)))%Z with false by lia.
+  unfold core, lit_num, lit_den. rewrite N.shiftl_mul_pow2. reflexivity.
 Qed.
 
 (* the value of the literal is the integer z of magnitude below 2^53 (with the
@@ -187,6 +207,7 @@ Section Class.
   Variable l : numlit.
   Hypothesis OK : lit_ok l.
   Hypothesis LEN : int_digits_ok l.
+  Hypothesis EXP : exp_digits_ok l.
 
   Let m := lit_mant l.
   Let e := lit_exp10 l.
@@ -200,7 +221,7 @@ Section Class.
 
   Theorem lit_class_int z : lit_class l = NCInt z <-> lit_is_int l z.
   Proof.
-    rewrite (lit_class_unfold l LEN). unfold lit_is_int.
+    rewrite (lit_class_unfold l LEN EXP). unfold lit_is_int.
     destruct class_facts as [En [Ed [Hm Dp]]]. fold m e in En, Ed |- *. fold nd.
     pose proof over_le_pow as C1. pose proof two1075_le_pow as C2. pose proof two53_lt_over as C3.
     pose proof two_le_two1075 as C4. pose proof two53_pos as C5.
@@ -239,7 +260,7 @@ Section Class.
 
   Theorem lit_class_overflow : lit_class l = NCOverflow <-> lit_overflows l.
   Proof.
-    rewrite (lit_class_unfold l LEN). unfold lit_overflows.
+    rewrite (lit_class_unfold l LEN EXP). unfold lit_overflows.
     destruct class_facts as [En [Ed [Hm Dp]]]. fold m e in En, Ed |- *. fold nd.
     pose proof over_le_pow as C1. pose proof two1075_le_pow as C2. pose proof two53_lt_over as C3.
     pose proof two_le_two1075 as C4. pose proof two53_pos as C5.
@@ -279,9 +300,10 @@ Section Class.
 End Class.
 
 (* the integer is unique: a literal has at most one integer value *)
-Lemma lit_is_int_unique l z1 z2 : lit_ok l -> int_digits_ok l -> lit_is_int l z1 -> lit_is_int l z2 -> z1 = z2.
+Lemma lit_is_int_unique l z1 z2 :
+  lit_ok l -> int_digits_ok l -> exp_digits_ok l -> lit_is_int l z1 -> lit_is_int l z2 -> z1 = z2.
 Proof.
-  intros OK LEN H1 H2. apply (lit_class_int l OK LEN) in H1, H2. congruence.
+  intros OK LEN EXP H1 H2. apply (lit_class_int l OK LEN EXP) in H1, H2. congruence.
 Qed.
 
 (* ================= the old exact path is a special case ================= *)
@@ -292,7 +314,8 @@ Proof.
   apply andb_true_iff in G. destruct G as [G1 G2]. apply Nat.leb_le in G1. apply N.ltb_lt in G2.
   intros E. inversion E; subst z. clear E.
   assert (LEN : int_digits_ok l) by (unfold int_digits_ok, max_int_digits; lia).
-  rewrite (lit_class_unfold l LEN).
+  assert (EXP : exp_digits_ok l) by (right; rewrite X; reflexivity).
+  rewrite (lit_class_unfold l LEN EXP).
   assert (Em : lit_mant l = dec_val (nl_int l)) by (unfold lit_mant, lit_digits; rewrite F, app_nil_r; reflexivity).
   assert (Ee : lit_exp10 l = 0%Z) by (unfold lit_exp10; rewrite F, X; reflexivity).
   assert (En : lit_num l = dec_val (nl_int l)) by (unfold lit_num; rewrite Em, Ee; cbn; lia).
@@ -491,7 +514,11 @@ Proof.
 Qed.
 
 (* a token all of whose number literals (header and payload, any depth, any
-   spelling) are integers below 2^53, zero, underflow or overflow: no oracle *)
+   spelling WITHIN THE DIGIT BUDGET: integer part of at most 800 digits,
+   exponent below 10000 in magnitude unless the mantissa is zero) are integers
+   below 2^53, zero, underflow or overflow: no oracle.  A literal outside the
+   budget has class NCOracle (lit_class_long, lit_class_long_exp), so a token
+   containing one is not token_decided. *)
 Definition token_decided (tok : bytes) : bool := forallb text_decided (jwt_json_parts tok).
 
 Theorem verify_x_decided num1 num2 sv keys o tok :
